@@ -114,15 +114,31 @@ Definition strip_kind (pkts : list pkt) (k : Z) (l : list Z) : list Z :=
   | x :: l' => if kind_of pkts x =? k then l' else l
   end.
 Definition mediaZ (k : Z) : bool := negb (k =? 0) && negb (k =? 3) && negb (k =? 4) && negb (k =? 5).
+(* the published ids strictly between positions i and j *)
+Definition between (ids : list Z) (i j : nat) : list Z := firstn (j - S i) (skipn (S i) ids).
+(* consecutive ids of [l] have only packets that are not on the video channel's GOP (audio/RTCP,
+   parameter sets) published between them *)
+Fixpoint contig_ok (pkts : list pkt) (ids l : list Z) : bool :=
+  match l with
+  | [] => true
+  | x :: l' =>
+      match l' with
+      | [] => true
+      | y :: _ =>
+          forallb (fun z => negb (mediaZ (kind_of pkts z))) (between ids (posZ x ids) (posZ y ids)) &&
+          contig_ok pkts ids l'
+      end
+  end.
 (* the GOP part of a join replay: only with the GOP cache on; starts with a key-frame start, goes
-   on with video packets none of which starts a key frame, in published order *)
+   on with video packets none of which starts a key frame, in published order, and leaves out no
+   video packet published in between *)
 Definition gop_ok (pkts : list pkt) (gopon : bool) (ids g : list Z) : bool :=
   match g with
   | [] => true
   | x :: g' =>
       gopon && (kind_of pkts x =? 2) &&
       forallb (fun y => mediaZ (kind_of pkts y) && negb (kind_of pkts y =? 2)) g' &&
-      subseqZ g ids
+      subseqZ g ids && contig_ok pkts ids g
   end.
 (* a (partly delivered) join replay: [VPS] [SPS] [PPS] then the GOP part *)
 Definition replay_ok (pkts : list pkt) (gopon : bool) (ids pre : list Z) : bool :=
